@@ -1112,3 +1112,6 @@ fn test_table_json5() {
     let result = table_definition.extract(r#"{ "test1": [1, 2, 3] }"#);
     assert_eq!(Value::Array(ValueType::Bool, vec![Value::Null, Value::Null, Value::Null]), result.columns[0]);
 }
+#[cfg(kani)]
+#[path = "/verif/kani/data_model.rs"]
+mod verif_kani;
